@@ -539,4 +539,30 @@ Theorem T02l_defaultdict_refuted_missing_key : forall lk d k, dict_get d k = Non
 Proof. exact defaultdict_refuted_missing_key. Qed.
 Print Assumptions T02l_defaultdict_refuted_missing_key.
 
+(* the merge rules in every statement list of a nested program *)
+Theorem T02l_merge_deep_sound : forall W r, (forall x, blind W x) -> forall b q res,
+  exec_block W b q = Some res -> exec_block W (merge_deep r b) q = Some res.
+Proof. exact merge_deep_sound. Qed.
+Print Assumptions T02l_merge_deep_sound.
+
+(* fixes.implicit_dict_keys_values_items, `for k, _ in d.items()` -> `for k in d.keys()` (and values), as
+   repaired (F02coll-11): same outcome, trace and variables except `_`, for loop bodies that never read `_` *)
+Theorem T02l_items_sound : forall W s s' q, blind W underscore -> rw_items false s = Some s' ->
+  match s with SFor _ _ body => reads_us_b body = false | _ => True end ->
+  res_rel underscore (exec_stmt W s q) (exec_stmt W s' q).
+Proof. exact items_sound. Qed.
+Print Assumptions T02l_items_sound.
+
+Theorem T02l_items_refuted_underscore :
+  exists s s' q, rw_items false s = Some s' /\ exec_stmt (fun _ => test_world) s q <> exec_stmt (fun _ => test_world) s' q /\
+                 exec_stmt (fun _ => test_world) s q <> None.
+Proof. exact items_refuted_underscore. Qed.
+Print Assumptions T02l_items_refuted_underscore.
+
+(* a block that never reads `_` does not depend on the binding of `_` (statement-level frame) *)
+Theorem T02l_block_frame_underscore : forall W b, blind W underscore -> reads_us_b b = false ->
+  forall q1 q2, xequiv underscore q1 q2 -> res_rel underscore (exec_block W b q1) (exec_block W b q2).
+Proof. intros W b H. exact (fB_all W H b). Qed.
+Print Assumptions T02l_block_frame_underscore.
+
 End Coll.
